@@ -4,7 +4,7 @@ from fractions import Fraction
 from pcv import core
 
 P = "PcVerif.Props.C19."
-THEOREMS = [P + t for t in ["adjust_affine_filter", "merge_runs", "merge_others_untouched", "merge_idempotent", "runs_flatten"]]
+THEOREMS = [P + t for t in ["adjust_affine_filter", "merge_runs", "merge_others_untouched", "merge_idempotent", "runs_flatten", "runs_uniform", "merged_neighbours_differ"]]
 
 
 def make(tier, seed):
